@@ -3,6 +3,7 @@
   Kernels only; re-convergence after restart is C01's simulation.
 -/
 import Nice.Model.Creds
+import Nice.Props.C14Restart
 namespace Nice.Props.C14
 open Nice.Creds Nice.Gen
 
